@@ -48,6 +48,12 @@ type Rev struct {
 	Tight bool   `json:"tight,omitempty"` // object-stream header without a trailing blank (when the first member allows it)
 	Tail  bool   `json:"tail,omitempty"`  // object-stream data end with the last byte of the last member
 	Cells []Cell `json:"cells"`           // one per object number 1..N
+	// W1 (stream): the type field of the cross-reference stream entries is W1 bytes wide (0 = 1)
+	W1 int `json:"w1,omitempty"`
+	// Filler (table): groups of never-used object numbers above everything else, listed as free entries
+	// "0000000000 65535 f"; each group is a subsection of its own. A long table (hundreds of entries) spans several
+	// read-ahead buffers of a scanner.
+	Filler []int `json:"filler,omitempty"`
 }
 
 type Op struct {
@@ -112,6 +118,7 @@ func build(c Case) built {
 	objstmNum := func(k int) int { return n + 3 + r*n + k }
 	xrefNum := func(k int) int { return n + 3 + r*n + r + k }
 	size := n + 3 + r*n + 2*r
+	fillerAt := size + 1 // filler numbers lie above all others, one unused number between two groups
 	gen := make([]int, n+1)
 	live := make([]bool, n+1)
 	latest := map[int]*entry{}
@@ -120,6 +127,14 @@ func build(c Case) built {
 		rr := pdfw.RawRevision{XRef: rv.XRef, Flate: rv.Flate, TightHead: rv.Tight, TightTail: rv.Tail, ObjStmNum: objstmNum(k), XRefNum: xrefNum(k)}
 		if rr.XRef != "stream" {
 			rr.XRef = "table"
+			for _, g := range rv.Filler {
+				for i := 0; i < g; i++ {
+					rr.Objs = append(rr.Objs, pdfw.RawObj{Num: fillerAt + i, Gen: 65535, Free: true})
+				}
+				fillerAt += g + 1
+			}
+		} else {
+			rr.W1 = rv.W1
 		}
 		if k == 0 {
 			rr.Objs = append(rr.Objs,
@@ -203,6 +218,9 @@ func build(c Case) built {
 	var order []int
 	if len(c.Phys) == len(revs) {
 		order = c.Phys
+	}
+	if fillerAt > size+1 {
+		size = fillerAt
 	}
 	return built{bytes: pdfw.WriteRawOrdered(revs, pdfw.NRef{Num: catalog}, size, c.EOL, order), latest: latest, size: size}
 }
@@ -514,6 +532,14 @@ func genCase(t *rapid.T) Case {
 			}
 			rv.Cells = append(rv.Cells, cell)
 		}
+		if rv.XRef == "stream" && rapid.IntRange(0, 3).Draw(t, "wideType") == 0 {
+			rv.W1 = rapid.SampledFrom([]int{2, 2, 3, 4}).Draw(t, "w1")
+		}
+		if rv.XRef == "table" && rapid.IntRange(0, 7).Draw(t, "longTable") == 0 {
+			for g, ng := 0, rapid.IntRange(2, 5).Draw(t, "fillerGroups"); g < ng; g++ {
+				rv.Filler = append(rv.Filler, rapid.SampledFrom([]int{1, 9, 10, 11, 90, 100, 111, 240, 400}).Draw(t, "fillerGroup"))
+			}
+		}
 		c.Revs = append(c.Revs, rv)
 	}
 	if r >= 2 && rapid.IntRange(0, 3).Draw(t, "physicalOrder") == 0 {
@@ -546,6 +572,17 @@ func meta(c Case) vr.Meta {
 	var labels []string
 	for _, rv := range c.Revs {
 		kinds[rv.XRef] = true
+		if rv.W1 > 1 {
+			labels = append(labels, "xref-stream-wide-type-field")
+		}
+		if nf := func() (n int) {
+			for _, g := range rv.Filler {
+				n += g
+			}
+			return
+		}(); nf >= 200 {
+			labels = append(labels, "xref-table-longer-than-4KiB")
+		}
 		for j, cell := range rv.Cells {
 			switch cell.Kind {
 			case "def":
